@@ -296,7 +296,7 @@ CHECKS = {
               "document, a protobuf file with 4+ nested messages [thorough: 5 more incl. a two-file protobuf import] x output modes "
               "{single file, split files, workspace}. Schedules: (a) with the cfg(pilota_verif) hook the per-module code generation "
               "tasks run sequentially in a dictated order: ALL permutations for <=4 [5] tasks (adjacent transpositions + reversal "
-              "beyond); (b) without the hook: per-process hash seeds 0..15 [0..95] x rayon pool sizes {1,16} [{1,2,3,4,8,16}], the "
+              "beyond); (b) without the hook: per-process hash seeds 0..7 [0..95] x rayon pool sizes {1,16} [{1,2,3,4,8,16}], the "
               "seeds being owned through an LD_PRELOAD getrandom/syscall shim with ASLR off. Oracle: the set of emitted files and "
               "every file's SHA-256 equal those of the reference run (seed 0, one thread); the hooked build's output equals the "
               "unhooked one. states = distinct schedules (task orders, seeds); transitions = builder executions; "
